@@ -842,3 +842,124 @@ def immutable_treeseq(ctx, py, rule="PY-TS-IMMUTABLE"):
                     ctx.ob(rule, "%s|%s" % (qn, x.func.attr), fresh, m.loc(x), "%s() on a freshly constructed _tskit.TreeSequence()" % x.func.attr)
     ctx.ob(rule, "instances", n >= 3, m.rel, "%d assignment / loader sites analysed" % n)
     return n
+
+
+FACADES = {
+    # python module -> {python class: (low-level class in _tskitmodule.c, attribute holding it)}
+    "trees": {"Tree": ("Tree", "_ll_tree"), "TreeSequence": ("TreeSequence", "_ll_tree_sequence")},
+    "tables": {"TableCollection": ("TableCollection", "_ll_tables"), "BaseTable": ("NodeTable", "ll_table"),
+               "MetadataTable": ("NodeTable", "ll_table"),
+               **{t.capitalize() + "Table": (t.capitalize() + "Table", "ll_table") for t in
+                  ("individual", "node", "edge", "migration", "site", "mutation", "population", "provenance")}},
+    "genotypes": {"Variant": ("Variant", "_ll_variant")},
+}
+
+
+def _ll_uses(fn, attr):
+    """names X in `<...>.attr.X` / `alias.X` within fn, where alias is a local bound to `<...>.attr` (or its public property)."""
+    attrs = {attr, attr.lstrip("_")}
+    aliases = set()
+    for x in ast.walk(fn):
+        if isinstance(x, ast.Assign) and isinstance(x.value, ast.Attribute) and x.value.attr in attrs:
+            aliases |= {t.id for t in x.targets if isinstance(t, ast.Name)}
+    out = {}
+    for x in ast.walk(fn):
+        if isinstance(x, ast.Attribute):
+            base = x.value
+            if (isinstance(base, ast.Attribute) and base.attr in attrs) or (isinstance(base, ast.Name) and base.id in aliases):
+                out.setdefault(x.attr, x)
+    return out
+
+
+def _ll_reach(m, cls, attr, qn, depth=3, seen=None):
+    """low-level attributes of `self.<attr>` that method `qn` of `cls` reaches: directly, through other methods / properties of
+    the class (self.X), or through a cached attribute self._X assigned elsewhere in the class from a low-level value."""
+    seen = set() if seen is None else seen
+    if qn in seen or depth < 0:
+        return set()
+    seen.add(qn)
+    out = set()
+    fns = [f for k, f in m.funcs.items() if k == qn or k == qn + ".setter"]
+    for fn in fns:
+        out |= set(_ll_uses(fn, attr))
+        for x in ast.walk(fn):
+            if (isinstance(x, ast.Attribute) and isinstance(x.value, ast.Call) and isinstance(x.value.func, ast.Name)
+                    and x.value.func.id == "super"):
+                for k in m.funcs:
+                    if k.endswith("." + x.attr) and not k.startswith(cls + "."):
+                        out |= _ll_reach(m, k.split(".")[0], attr, k, depth - 1, seen)
+            if isinstance(x, ast.Attribute) and isinstance(x.value, ast.Name) and x.value.id == "self":
+                nm = x.attr
+                if cls + "." + nm in m.funcs:
+                    out |= _ll_reach(m, cls, attr, cls + "." + nm, depth - 1, seen)
+                elif isinstance(x.ctx, ast.Load) and nm.startswith("_") and nm not in (attr,):
+                    for k, g in m.funcs.items():
+                        if not k.startswith(cls + "."):
+                            continue
+                        for a in ast.walk(g):
+                            if isinstance(a, ast.Assign) and any(isinstance(t, ast.Attribute) and t.attr == nm and isinstance(t.value, ast.Name)
+                                                                 and t.value.id == "self" for t in a.targets):
+                                uses = _ll_uses(g, attr)
+                                dumps = {ast.dump(v): k2 for k2, v in uses.items()}
+                                # the stored value, closed over the local definitions it is built from
+                                exprs, names, grew = [a.value], set(), True
+                                while grew:
+                                    grew = False
+                                    for e in list(exprs):
+                                        for y in ast.walk(e):
+                                            if isinstance(y, ast.Name) and isinstance(y.ctx, ast.Load) and y.id not in names:
+                                                names.add(y.id)
+                                                for b in ast.walk(g):
+                                                    if isinstance(b, (ast.Assign, ast.For, ast.comprehension)):
+                                                        tg = b.targets if isinstance(b, ast.Assign) else [b.target]
+                                                        if any(isinstance(z, ast.Name) and z.id == y.id for t in tg for z in ast.walk(t)):
+                                                            exprs.append(b.value if isinstance(b, ast.Assign) else b.iter)
+                                                            grew = True
+                                for e in exprs:
+                                    for y in ast.walk(e):
+                                        if isinstance(y, ast.Attribute) and ast.dump(y) in dumps:
+                                            out.add(y.attr)
+    return out
+
+
+def facade_names(ctx, py, P, classes=(("trees", "Tree"),), rule="PY-LL-NAME", floor=10, exempt=None):
+    """A Python facade method named X (or whose name matches get_X / X_array) where the low-level class registers a method of
+    that name must reach that low-level method."""
+    from sa import modinfo
+    ctx.rule(rule, "every method / property of the Python facade classes whose name is also registered (as X, get_X or X_array) in "
+                   "the low-level class's method table answers from that low-level method: directly, through another method of "
+                   "the class, or through an attribute cached from it.  A facade that computes the answer itself leaves the C "
+                   "kernel the other rules analyse")
+    tu = P.tus["module"]
+    meths, gets = modinfo.method_tables(tu)
+    exempt = exempt or {}
+    n = 0
+    for mn, cls in classes:
+        llc, attr = FACADES[mn][cls]
+        names = {s for s, _ in meths.get(llc + "_methods", [])} | {s for s, _, _ in gets.get(llc + "_getsetters", [])}
+        ctx.need(bool(names), "method table of low-level class %s" % llc)
+        m = py.mod(mn)
+        for qn, fn in m.funcs.items():
+            if not qn.startswith(cls + ".") or qn.endswith(".setter"):
+                continue
+            nm = qn.split(".")[1]
+            if any(isinstance(d, ast.Name) and d.id in ("classmethod", "staticmethod") for d in fn.decorator_list):
+                continue
+            cands = {nm, "get_" + nm, nm + "_array", re.sub(r"^get_", "", nm)} & names
+            if nm.startswith("get_"):
+                cands |= {nm[4:]} & names
+            if not cands:
+                continue
+            body = [b for b in fn.body if not (isinstance(b, ast.Expr) and isinstance(b.value, ast.Constant))]
+            if len(body) == 1 and isinstance(body[0], ast.Raise):
+                continue        # abstract in this class
+            if qn in exempt:
+                ctx.ob(rule, qn, True, m.loc(fn), "exempt: " + exempt[qn])
+                continue
+            got = _ll_reach(m, cls, attr, qn)
+            n += 1
+            ok = bool(cands & got)
+            ctx.ob(rule, qn, ok, m.loc(fn), "reaches self.%s.%s" % (attr, sorted(cands & got)[0]) if ok else
+                   "%s never reaches self.%s.%s (low-level attributes reached: %s)" % (qn, attr, "/".join(sorted(cands)), sorted(got)[:6] or "none"))
+    ctx.floor(rule, floor)
+    return n
